@@ -345,6 +345,10 @@ pub fn check_c16(tier: Tier) -> i32 {
     let count = (e.scenarios)(tier);
     let b = ep::batch(seed, tier);
     println!("C16 purity-sim: seed {} tier {} batch {} programs, {} history/thread scenarios", seed, tier.name(), b.len(), count);
+    // Miri adjunct, in the background: plain threads without baton or hooks; its data-race detector is
+    // the only oracle here that sees a race INSIDE one instruction (quick: a small sample)
+    let miri_n = if tier == Tier::Thorough { 8 } else { 2 };
+    let miri_handle = std::thread::spawn(move || miri_adjunct("C16", seed, "threads", miri_n));
     let mut harness_errors: Vec<String> = Vec::new();
     let mut violations: Vec<crate::acc::Violation> = Vec::new();
 
@@ -446,9 +450,11 @@ pub fn check_c16(tier: Tier) -> i32 {
         0
     };
     let mut miri: Vec<Value> = Vec::new();
-    if tier == Tier::Thorough {
-        let (ran, summary, v) = miri_adjunct("C16", seed, "threads", 6);
-        miri.push(json!({"part": "threads (3 plain threads, no baton: Miri's scheduler and data-race detector)", "n": 6, "ran": ran, "summary": summary}));
+    if let Ok((ran, summary, v)) = miri_handle.join() {
+        miri.push(json!({"part": "threads (3 plain threads evaluating 8 opcode/builtin coverage programs + generated ones, no baton, no hooks: Miri's scheduler and data-race detector)", "generated_programs": miri_n, "ran": ran, "summary": summary}));
+        if !ran {
+            println!("NOTE: Miri adjunct did not run: {}", summary);
+        }
         if let Some(v) = v {
             violations.push(v);
         }
@@ -529,7 +535,16 @@ pub fn miri_adjunct(property: &str, seed: u64, part: &str, n: u64) -> (bool, Str
     // bounded: Miri is two orders of magnitude slower than native code
     let out = std::process::Command::new("timeout")
         .current_dir(&dir)
-        .env("MIRIFLAGS", "-Zmiri-permissive-provenance -Zmiri-disable-stacked-borrows")
+        .env(
+            "MIRIFLAGS",
+            if part == "threads" {
+                // several Miri schedules: which accesses are unordered depends on the interleaving
+                // no artificial happens-before edges from address re-use across threads (they hide races)
+                "-Zmiri-permissive-provenance -Zmiri-disable-stacked-borrows -Zmiri-many-seeds=0..4 -Zmiri-address-reuse-cross-thread-rate=0"
+            } else {
+                "-Zmiri-permissive-provenance -Zmiri-disable-stacked-borrows"
+            },
+        )
         .env("CARGO_NET_OFFLINE", "true")
         .args(["-k", "10", "1500", "cargo", "+nightly", "miri", "run", "--offline", "--quiet", "--", "miri", &seed.to_string(), part, &n.to_string()])
         .output();
@@ -545,9 +560,9 @@ pub fn miri_adjunct(property: &str, seed: u64, part: &str, n: u64) -> (bool, Str
     if out.status.code() == Some(124) || out.status.code() == Some(137) {
         return (false, "miri adjunct stopped after 25 minutes (not finished, nothing concluded)".into(), None);
     }
-    let ok_line = stdout.lines().find(|l| l.starts_with("miri-adjunct"));
-    if out.status.success() && ok_line.map(|l| l.ends_with("problems=0")).unwrap_or(false) {
-        return (true, ok_line.unwrap().to_string(), None);
+    let ok_lines: Vec<&str> = stdout.lines().filter(|l| l.starts_with("miri-adjunct")).collect();
+    if out.status.success() && !ok_lines.is_empty() && ok_lines.iter().all(|l| l.ends_with("problems=0")) {
+        return (true, format!("{} (x{} Miri schedules)", ok_lines[0], ok_lines.len()), None);
     }
     let err = stderr
         .lines()
